@@ -303,6 +303,12 @@ M('c10-bool-for-integer-line', ['C10'], Y23 + 'f1040_s8812.py', "IntegerField('4
 M('c10-empty-sum-guarded', ['C10'], Y23 + 'f8995.py', "FloatField('6', lambda s, i, v: float(sum([v[f'1099-div:{n}.box_5'] for n in range(i['1040.number_1099-div'])]))),", "FloatField('6', lambda s, i, v: sum([v[f'1099-div:{n}.box_5'] for n in range(i['1040.number_1099-div'])]) if i['1040.number_1099-div'] > 0 else None),", None, 'empty sum excluded by a guard on the count instead of float()', 'silent')
 M('c10-empty-sum-plus-float', ['C10'], Y23 + 'f8995.py', "FloatField('6', lambda s, i, v: float(sum([v[f'1099-div:{n}.box_5'] for n in range(i['1040.number_1099-div'])]))),", "FloatField('6', lambda s, i, v: 0.0 + sum([v[f'1099-div:{n}.box_5'] for n in range(i['1040.number_1099-div'])])),", None, 'empty sum promoted by adding 0.0', 'silent')
 
+M('c02-next-multiple-off-by-one', ['C02'], Y23 + 'f1040_s8812.py', "            return ceil(res / 1000.0) * 1000.0\n", "            return (res // 1000.0 + 1) * 1000.0\n", 'R2', 'an exact multiple of $1,000 is rounded up one step too far (seed C02-D)')
+M('c02-next-multiple-rewritten', ['C02'], Y23 + 'f1040_s8812.py', "            return ceil(res / 1000.0) * 1000.0\n", "            return -((-res) // 1000.0) * 1000.0\n", None, 'ceiling written with floor division of the negated amount', 'silent')
+M('c02-ratio-not-capped', ['C02'], Y21 + 'f1040_s8812.py', "FloatField('36', lambda s, i, v: min(1.0, v['34'] / v['35']), places=3),", "FloatField('36', lambda s, i, v: v['34'] / v['35'], places=3),", 'R2', 'ratio line no longer capped at 1.000')
+M('c02-ratio-as-multiple', ['C02'], Y21 + 'f1040_s8812.py', "FloatField('36', lambda s, i, v: min(1.0, v['34'] / v['35']), places=3),", "FloatField('36', lambda s, i, v: ceil((v['34'] / v['35']) / 1000.0) * 1000.0),", 'R2', 'ratio line computed as a multiple of 1000 (F23 reverted)')
+M('c02-8812-14-larger', ['C02'], Y23 + 'f1040_s8812.py', "FloatField('14', lambda s, i, v: min(v['12'], v['13']) if v['8_gt_11'] else 0.0),", "FloatField('14', lambda s, i, v: max(v['12'], v['13']) if v['8_gt_11'] else 0.0),", 'R2', 'Schedule 8812 line 14 takes the larger of lines 12 and 13')
+
 # ------------------------------------------------------------------ C15
 M('c15-floor-misplaced', ['C15'], Y22 + 'f1040.py', "FloatField('22', lambda s, i, v: max(0.0, v['18'] - v['21'])),", "FloatField('22', lambda s, i, v: max(0.0, v['18']) - v['21']),", 'R15.2', 'misplaced parenthesis lets line 22 go negative (seed C15-A)')
 M('c15-floor-removed', ['C15'], Y23 + 'f1040.py', "FloatField('15', lambda s, i, v: max(0.0, v['11'] - v['14'])), # Taxable income", "FloatField('15', lambda s, i, v: v['11'] - v['14']), # Taxable income", 'R15.2', 'taxable income can go negative')
